@@ -24,6 +24,8 @@ type Gen struct {
 	n    int
 	// symbolic cursors: resolved against each backend's own sort ids before a batch runs
 	cursors map[*int64]symCursor
+	// ids that did not exist when they were first drawn, so that one batch can hold "read (absent), create, read"
+	fresh []string
 }
 
 type symCursor struct {
@@ -64,6 +66,20 @@ func (g *Gen) cursor(table string) *int64 {
 }
 
 func (g *Gen) pid() string {
+	switch g.r.Intn(8) {
+	case 0:
+		g.n++
+		id := fmt.Sprintf("f%d", g.n)
+		g.fresh = append(g.fresh, id)
+		if len(g.fresh) > 3 {
+			g.fresh = g.fresh[1:]
+		}
+		return id
+	case 1, 2:
+		if len(g.fresh) > 0 {
+			return g.fresh[g.r.Intn(len(g.fresh))]
+		}
+	}
 	return pick(g.r, "p0", "p1", "p2", "p3", "a.x", "a.y", "p0", "p1", "p2", "a.x", "P1", "A.x", "a_x", "a%x", `a\x`, "axx")
 }
 func (g *Gen) sid() string  { return pick(g.r, "s0", "s1", "s2", "s0", "s1", "S1", "s_1") }
